@@ -32,6 +32,18 @@ func init() {
 		Bounds:  "params (source length <= n, TOP instead of RETR); every byte value (NUL, CR, LF, dots, 8-bit)",
 		Assumes: []string{"bufio.Scanner is a model (ScanLines semantics); its 64 KiB token limit and very long lines are outside the bounds"},
 	}, Harness{
+		Prop: "C02", Pkg: "server/pop3", Func: "VerifC02RetrLong",
+		Quick:    [][]int64{{65536, 0}},
+		Thorough: [][]int64{{4096, 0}, {4097, 0}, {65535, 0}, {65536, 0}, {65537, 1}, {70000, 0}},
+		Unwind:   40,
+		LoopBounds: map[string]int{
+			"github.com/inbucket/inbucket/v3/pkg/zzvrf.ModelScannerScan":       150000,
+			"github.com/inbucket/inbucket/v3/pkg/server/pop3.vrfLines":         150000,
+			"github.com/inbucket/inbucket/v3/pkg/server/pop3.VerifC02RetrLong": 150000,
+		},
+		Desc:   "POP3 RETR/TOP of a message holding one line of L bytes (around bufio's 4096-byte buffer and 64 KiB token size, and beyond) between ordinary lines: every line transmitted, the long one unbroken",
+		Bounds: "params (L, TOP instead of RETR); concrete content (the line is L times the letter a): a directed run — the engine executes the real code, no symbolic variable is involved (arrays of 64 Ki bytes with symbolic content are beyond the engine)",
+	}, Harness{
 		Prop: "C01", Pkg: "server/smtp", Func: "VerifC03Machine",
 		Quick:    [][]int64{{3, 5, 0, 0}, {5, 3, 0, 1}},
 		Thorough: [][]int64{{3, 6, 0, 1}, {4, 5, 0, 1}, {5, 5, 0, 1}},
